@@ -700,6 +700,9 @@ class ReactionSystem(object):
                     result[k] = v
                 else:
                     result[k] += v
+        for k in substance_keys:  # e.g. a system without reactions
+            if k not in result:
+                result[k] = 0
         if cstr_fr_fc:
             fr_key, fc = cstr_fr_fc
             for sk, fck in fc.items():
